@@ -301,8 +301,47 @@ impl C19 {
             ctx.count("chain_cases_skipped_by_size", 1);
             return;
         }
+        // the chaining functions take *any* sorted match list: also thinned subsets (seeds that abut without the
+        // diagonal run between them) and synthetic grids
+        {
+            let thin: Vec<(u32, u32)> = match rng.below(3) {
+                0 => matches.iter().cloned().filter(|m| (m.0 as usize) % k == 0 && (m.1 as usize) % k == (m.0 as usize) % k).collect(),
+                1 => matches.iter().cloned().filter(|_| rng.chance(1, 2)).collect(),
+                _ => {
+                    // synthetic: points of a k-spaced grid plus a few diagonal neighbours
+                    let mut v: Vec<(u32, u32)> = vec![];
+                    let g = rng.range(2, 5);
+                    for a in 0..g {
+                        for b in 0..g {
+                            if rng.chance(2, 3) {
+                                v.push(((a * k) as u32 + rng.below(2) as u32, (b * k) as u32 + rng.below(2) as u32));
+                            }
+                        }
+                    }
+                    v.sort();
+                    v.dedup();
+                    v
+                }
+            };
+            if !thin.is_empty() && thin.len() <= cap {
+                self.check_chains(ctx, rng, &thin, k, s1, s2, "thinned-or-synthetic");
+            }
+        }
+        self.check_chains(ctx, rng, &matches, k, s1, s2, "all-kmer-matches");
+        self.check_expand(ctx, rng, &matches, k, s1, s2, cap);
+        let jumps = matches.windows(2).filter(|w| !(w[1].0 == w[0].0 + 1 && w[1].1 == w[0].1 + 1)).count();
+        ctx.shape(true, &("C19", "chain", k.min(6), size_class(matches.len()), jumps.min(3)));
+        ctx.count("chain_cases", 1);
+        if ctx.wants_sample("chain") && s1.len() < 30 && s2.len() < 30 {
+            ctx.sample("chain", || Obj::new().b("seq1", s1).b("seq2", s2).u("k", k as u64).u("matches", matches.len() as u64).done());
+        }
+    }
+
+    fn check_chains(&self, ctx: &mut Ctx, rng: &mut Rng, matches: &[(u32, u32)], k: usize, s1: &[u8], s2: &[u8], list_kind: &str) {
+        let desc = |w: String| Obj::new().b("seq1", s1).b("seq2", s2).u("k", k as u64).s("match_list", list_kind).d("matches", &&matches[..matches.len().min(40)]).s("what", &w).done();
+        ctx.count(&format!("chain_lists:{}", list_kind), 1);
         // lcskpp
-        match guard(|| sparse::lcskpp(&matches, k)) {
+        match guard(|| sparse::lcskpp(matches, k)) {
             Err(p) => {
                 ctx.violation(&format!("lcskpp:panic:{}", panic_site(&p)), desc(p));
                 return;
@@ -343,9 +382,15 @@ impl C19 {
                 }
             }
         }
+    }
+
+    fn check_expand(&self, ctx: &mut Ctx, rng: &mut Rng, matches: &[(u32, u32)], k: usize, s1: &[u8], s2: &[u8], cap: usize) {
+        let desc = |w: String| Obj::new().b("seq1", s1).b("seq2", s2).u("k", k as u64).s("what", &w).done();
+        let ms = rng.range(1, 3) as u32;
+        let (go, ge) = (-(rng.below(6) as i32), -(rng.below(3) as i32));
         // expanded matches
         let am = rng.usize(4);
-        let sub: Vec<(u32, u32)> = if rng.chance(1, 2) { matches.clone() } else { matches.iter().cloned().filter(|_| rng.chance(2, 3)).collect() };
+        let sub: Vec<(u32, u32)> = if rng.chance(1, 2) { matches.to_vec() } else { matches.iter().cloned().filter(|_| rng.chance(2, 3)).collect() };
         match guard(|| sparse::expand_kmer_matches(s1, s2, k, &sub, am)) {
             Err(p) => ctx.violation(&format!("expand_kmer_matches:panic:{}", panic_site(&p)), desc(format!("allowed mismatches {}: {}", am, p))),
             Ok(e) => {
@@ -385,12 +430,7 @@ impl C19 {
                 }
             }
         }
-        let jumps = matches.windows(2).filter(|w| !(w[1].0 == w[0].0 + 1 && w[1].1 == w[0].1 + 1)).count();
-        ctx.shape(true, &("C19", "chain", k.min(6), size_class(matches.len()), jumps.min(3), am));
-        ctx.count("chain_cases", 1);
-        if ctx.wants_sample("chain") && s1.len() < 30 && s2.len() < 30 {
-            ctx.sample("chain", || Obj::new().b("seq1", s1).b("seq2", s2).u("k", k as u64).u("matches", matches.len() as u64).done());
-        }
+        ctx.count(&format!("expansions_with_{}_mismatches", am), 1);
     }
 }
 
@@ -415,7 +455,7 @@ impl Monitor for C19 {
          positions per q-gram (ascending; empty iff count > max_count), matches() per diagonal (count, first..last spans), exact_matches() == maximal exact matches of length >= q by direct \
          comparison. code case = alphabet size in {1,..,17,200,256}, q*bits up to 64: forward q-gram codes injective, reverse iteration mirrors forward, ExactSizeIterator length. \
          chain case = two sequences over 2-4 symbols (related, repeats), k in 1..=6: the three find_kmer_matches variants == sorted list of all equal k-mer pairs; lcskpp path is a valid \
-         chain whose recomputed score == reported == optimum of an independent O(N^2) chain DP (lists up to 300); sdpkpp and sdpkpp_union_lcskpp_path return non-empty valid chains; \
+         chain whose recomputed score == reported == optimum of an independent O(N^2) chain DP (lists up to 300), on the full k-mer match list and on thinned subsets / synthetic k-spaced grids (abutting seeds without the diagonal run between them); sdpkpp and sdpkpp_union_lcskpp_path return non-empty valid chains; \
          expand_kmer_matches(allowed mismatches 0..=3) returns a strictly sorted list containing the input, every entry a k-mer pair within the mismatch bound, and it is chainable. \
          shape = (|A| power of two?, |A|, q, negative diagonal?, #diagonals, pattern longer?, max_count) / (|A|, q, >32 bits?) / (k, #matches class, #jumps, mismatches)"
     }
@@ -454,7 +494,13 @@ impl Monitor for C19 {
                 12 => self.chain_case(ctx, rng, b"ACGTACGATAGGTA", b"TTACGTACGATAGGTATT", 5),
                 13 => self.chain_case(ctx, rng, b"AAAAAAAAAAAAAA", b"AAAAAAAAAA", 3),
                 14 => self.chain_case(ctx, rng, b"ACGTACGTACGT", b"TGCA", 2),
-                _ => self.chain_case(ctx, rng, b"ABABABABABABAB", b"BABABABABA", 4),
+                _ => {
+                    self.chain_case(ctx, rng, b"ABABABABABABAB", b"BABABABABA", 4);
+                    // abutting seeds without the diagonal run between them; non-overlapping seeds every k bases
+                    self.check_chains(ctx, rng, &[(0, 0), (4, 4)], 4, b"", b"", "directed-abutting");
+                    self.check_chains(ctx, rng, &[(0, 0), (3, 3), (6, 6), (9, 10), (12, 13)], 3, b"", b"", "directed-abutting");
+                    self.check_chains(ctx, rng, &[(0, 5), (2, 0), (4, 2), (5, 7), (7, 4)], 2, b"", b"", "directed-abutting");
+                }
             }
             return;
         }
